@@ -19,6 +19,9 @@ pub struct NodeView {
     /// addresses granted by DHCP ACKs that the client ingested in the poll being examined: the client
     /// already holds them, the application has not yet seen the Configured event
     pub dhcp_leased_unapplied: Vec<IpAddr>,
+    /// a DHCP client socket runs but no application applies its leases to the interface (adversary scenario):
+    /// the client's own messages (68 -> 67) are then sourced from an address only the socket knows
+    pub dhcp_unmanaged: bool,
 }
 
 pub struct Tapped {
@@ -156,6 +159,13 @@ fn check_source_rule(view: &NodeView, ip: &Ip, pkt: &Packet) -> Result<(), Viola
         }
     }
     let src = &ip.src;
+    if view.dhcp_unmanaged {
+        if let Some(L4::Udp(u)) = &pkt.l4 {
+            if u.sport == 68 && u.dport == 67 {
+                return Ok(());
+            }
+        }
+    }
     if let Some(L4::Udp(u)) = &pkt.l4 {
         if view.dhcp && u.sport == 68 && u.dport == 67 && view.dhcp_leased_unapplied.contains(src) && !view.addrs.iter().any(|(a, _)| a == src) {
             return Err(viol(
